@@ -54,11 +54,24 @@ impl EventLog {
 
     pub fn replay(&self) -> io::Result<Vec<Event>> {
         let file = File::open(&self.path)?;
-        let reader = BufReader::new(file);
+        let mut reader = BufReader::new(file);
         let mut events = Vec::new();
-        for line in reader.lines() {
-            let line = line?;
-            let event: Event = serde_json::from_str(&line)
+        let mut line = Vec::new();
+        loop {
+            line.clear();
+            if reader.read_until(b'\n', &mut line)? == 0 {
+                break;
+            }
+            if line.last() != Some(&b'\n') {
+                // Readers do not take the writer lock: an unterminated last line is a frame a
+                // concurrent append is still writing, not part of the log yet.
+                break;
+            }
+            line.pop();
+            if line.last() == Some(&b'\r') {
+                line.pop();
+            }
+            let event: Event = serde_json::from_slice(&line)
                 .map_err(|err| io::Error::new(io::ErrorKind::InvalidData, err))?;
             events.push(event);
         }
